@@ -250,6 +250,20 @@ pub fn run(case: &Case, ctx: &mut Ctx) -> CaseOutcome {
     let markers = env.markers();
     let probes = env.probes();
 
+    // protocol invariants over the event log (no outputs involved)
+    let issues = crate::trace::check(&sim.log);
+    ctx.stats.count("trace.logs_checked");
+    for is in &issues {
+        match (prop, is.class) {
+            ("C02", "final-pass-before-dependency-finished") => {
+                out.violate("C02", "final-pass-before-dependency-finished", is.message.clone())
+            }
+            ("C03", "final-pass-spawned-twice") | ("C03", "first-pass-spawned-twice") => {
+                out.violate("C03", is.class, is.message.clone())
+            }
+            _ => {}
+        }
+    }
     match prop {
         "C02" => {
             if sim.verdict.is_ok() {
